@@ -177,11 +177,17 @@ pub fn generate_c07(a: &Args) {
     let pin = pins("ccsds.json");
     for r in enum_iterator::all::<AR4JARate>() {
         for k in enum_iterator::all::<AR4JAInfoSize>() {
-            if matches!(k, AR4JAInfoSize::K16384) && !th { continue; }
             let name = ar4ja_name(r, k);
             out.new_case();
             let res = guarded(|| AR4JACode::new(r, k).h());
             let h = match res { Ok(h) => h, Err(m) => { out.ev("Ar4ja", "panic", json!({"code": name, "msg": m})); continue; } };
+            if matches!(k, AR4JAInfoSize::K16384) && !th {
+                // quick tier: size, column degrees and the pinned digest only (the full event is ~100 k matrix entries per code)
+                let colw: Vec<usize> = (0..h.num_cols()).map(|c| h.col_weight(c)).collect();
+                out.ev("Ar4jaLite", "ok", json!({"code": name, "nrows": h.num_rows(), "ncols": h.num_cols(), "colw": colw, "sha": digest(&h),
+                    "pin": pin.get(&name).and_then(|v| v.as_str()).unwrap_or("unpinned")}));
+                continue;
+            }
             let kinfo = match k { AR4JAInfoSize::K1024 => 1024, AR4JAInfoSize::K4096 => 4096, AR4JAInfoSize::K16384 => 16384 };
             let m = match r { AR4JARate::R1_2 => kinfo / 2, AR4JARate::R2_3 => kinfo / 4, AR4JARate::R4_5 => kinfo / 8 }; // for the JSON only; TLC has its own table
             let small = h.num_rows() <= 800 || (th && h.num_rows() <= 1600);
